@@ -35,6 +35,7 @@ fn dispatch(req: &Value) -> Value {
         "const_parse" => fmtops::const_parse(req),
         "args_conv" => astops::args_conv(req),
         "lex" => syn::lex(req),
+        "lex_raw" => syn::lex_raw(req),
         "locate_tree" => syn::locate_tree(req),
         "locate_calls" => syn::locate_calls(req),
         _ => json!({"tool_error": format!("unknown op {op}")}),
